@@ -16,8 +16,8 @@ pub static DEF: PropDef = PropDef {
     level: "exploration",
     rule: "each case: a random conformant tree (zoo incl. Z_DEEP chains of 3-7 nested masters, and random specifications) and a family of unknown-size choices U over its masters: ALL 2^m subsets when the tree has m <= 8 eligible masters (thorough; <= 5 quick), random subsets + 'all eligible' + 'deepest chain' otherwise. Each (tree, U) is encoded twice — by the real writer (option or deprecated API) and by the reference encoder with all-ones sizes of a random width 1-8 per master — and read by the real strict iterator; the item sequence (offsets ignored) must equal the flattened tree, i.e. equal the all-known-size reading, with Ends of implicitly closed masters placed before the element that follows. A master is eligible unless it is a global master (may contain itself) or the element that follows it after closing would be a global/raw element (inherently ambiguous, excluded by the statement). distinct = (tree fingerprint, U); non-trivial iff |U| >= 2 with two members nested, or the closing element lies >= 2 levels above the innermost unknown-size master.",
     assumptions: &["reference closing semantics (spec.rs::ref_closes) only enter through the eligibility rule; the oracle itself is the generated tree", "cases the writer rejects are vacuous (counted)"],
-    cases_quick: 4000,
-    cases_thorough: 100_000,
+    cases_quick: 80_000,
+    cases_thorough: 600_000,
     floors: &[("encodings_compared", 30_000), ("distinct_nontrivial", 1000), ("nested_unknown_pairs", 5000), ("closings_two_or_more_levels_up", 1000), ("trees_with_all_subsets", 200)],
     exhaustive_note: Some("all 2^m unknown-size subsets of the eligible masters for trees with m <= 5 (quick) / m <= 8 (thorough)"),
     run,
